@@ -3,6 +3,7 @@
 -/
 import RaftWal.Proofs.WalRefine
 import RaftWal.Generated.Codec
+import RaftWal.Proofs.CrashSpecLink
 namespace RaftWal.C05
 open RaftWal
 
@@ -76,5 +77,28 @@ example : ∀ op ∈ ([.store [{ index := 7, term := 1, typ := 0, data := [1,2,3
   intro op h
   simp only [List.mem_cons, List.mem_nil_iff, or_false] at h
   rcases h with h | h | h | h | h | h <;> subst h <;> simp [Op.inRange]
+
+/-! ## one specification: the log the crash theorems (C01–C04) are stated against is this reference log -/
+
+/-- an append the reference log accepts is a legal `store` of the crash model's specification with the same result -/
+theorem crash_spec_store_is_reference (tag : Log → Crash.Entry) (s : Spec.SLog) (l : Log) (ls : List Log) (b : Bool)
+    (hopen : s.closed = false) (hacc : s.accepts (l :: ls) = true) :
+    Crash.view tag (s.store (l :: ls)).1 = Crash.specApply (Crash.view tag s) (.store l.index ((l :: ls).map tag) b) ∧
+    (s.store (l :: ls)).2 = none :=
+  Crash.store_link tag s l ls b hopen hacc
+
+/-- a prefix DeleteRange of the reference log is the crash model's `delHead` (max clamped to LastIndex, as wal.go does) -/
+theorem crash_spec_delHead_is_reference (tag : Log → Crash.Entry) (s : Spec.SLog) (mn mx : Nat) (hopen : s.closed = false)
+    (hne : s.entries ≠ []) (h1 : mn ≤ mx) (h2 : mn ≤ s.firstIndex) (h3 : s.firstIndex ≤ mx) :
+    Crash.view tag (s.delete mn mx).1 =
+      Crash.specApply (Crash.view tag s) (.delHead ((if mx > s.lastIndex then s.lastIndex else mx) + 1)) ∧
+    (s.delete mn mx).2 = none :=
+  Crash.delHead_link tag s mn mx hopen hne h1 h2 h3
+
+/-- a suffix DeleteRange of the reference log is the crash model's `delTail` -/
+theorem crash_spec_delTail_is_reference (tag : Log → Crash.Entry) (s : Spec.SLog) (mn mx : Nat) (hopen : s.closed = false)
+    (hne : s.entries ≠ []) (h2 : s.firstIndex < mn) (h3 : mn ≤ s.lastIndex) (h4 : s.lastIndex ≤ mx) :
+    Crash.view tag (s.delete mn mx).1 = Crash.specApply (Crash.view tag s) (.delTail (mn - 1)) ∧ (s.delete mn mx).2 = none :=
+  Crash.delTail_link tag s mn mx hopen hne h2 h3 h4
 
 end RaftWal.C05
